@@ -529,6 +529,34 @@ func runPersist[V any](vt vtype[V], c caseSpec) (o outcome) {
 		o.broken = fmt.Sprintf("mutator read: %v / %s", err, before)
 		return
 	}
+	if c.Scenario == "persist-own" {
+		// the SAME transaction goes on to write a different item of the same node and commits: the in-place
+		// mutation was never written back (no Update of the target), so it must not become durable
+		nv := vt.gen(rnd, 9000)
+		want[other] = show(nv)
+		if ok, err := b.Update(sopx.Ctx, other, nv); err != nil || !ok {
+			t.Rollback(sopx.Ctx)
+			o.broken = fmt.Sprintf("update other: ok=%v err=%v", ok, err)
+			return
+		}
+		if err := t.Commit(sopx.Ctx); err != nil {
+			o.broken = "commit mutator: " + err.Error()
+			return
+		}
+		o.nontrivial = after != before
+		cold, err := coldRead(dir, vt.name, target)
+		if err != nil {
+			o.broken = "cold read: " + err.Error()
+			return
+		}
+		if cold != want[target] {
+			dd := clone(base)
+			dd["cold_process_reads"] = cold
+			dd["caller_view_after_mutation"] = after
+			o.violations = append(o.violations, viol{sig(c, "durable-after-own-unrelated-write"), dd})
+		}
+		return
+	}
 	if err := t.Rollback(sopx.Ctx); err != nil {
 		o.broken = "rollback: " + err.Error()
 		return
@@ -806,7 +834,7 @@ func dispatch(c caseSpec) (outcome, bool) {
 
 func dispatchT[V any](vt vtype[V], c caseSpec) (outcome, bool) {
 	switch c.Scenario {
-	case "persist":
+	case "persist", "persist-own":
 		return runPersist(vt, c), false
 	case "writer":
 		return runWriter(vt, c)
@@ -825,7 +853,7 @@ func Run(r *report.Run) int {
 		c.Slot = slots[rnd.Intn(len(slots))]
 		// 1 item up to 3.5 x slot length: single-node and multi-level trees
 		c.Items = 2 + rnd.Intn(c.Slot*7/2)
-		if c.Scenario == "persist" {
+		if c.Scenario == "persist" || c.Scenario == "persist-own" {
 			// target and the unrelated key must share one node: keep the tree a single root node
 			c.Items = 2 + rnd.Intn(c.Slot-1)
 		}
@@ -873,6 +901,13 @@ func Run(r *report.Run) int {
 					// quick: one persist case for every second (value type, cell) pair, API rotating
 					if r.Thorough() || ((vi+ci)%2 == 0 && ai == (vi+ci/2)%len(apis)) {
 						mk(caseSpec{Scenario: "persist", VT: vt, Profile: cell.p, LastWrite: cell.lw, API: api, Pos: "find", End: "rollback"})
+					}
+				}
+				// the mutating transaction itself writes another item of the node and commits (one per value type
+				// and cell, API rotating; thorough: every API)
+				for ai, api := range apis {
+					if r.Thorough() || ai == (vi+ci)%len(apis) {
+						mk(caseSpec{Scenario: "persist-own", VT: vt, Profile: cell.p, LastWrite: cell.lw, API: api, Pos: "find", End: "commit-writer"})
 					}
 				}
 				if cell.lw == "add" {
